@@ -126,6 +126,17 @@ struct Slot {
     /// CPU time of the process (clock ticks) when the call started — used instead of wall time
     /// when the process runs its cases on one thread, so that a loaded machine cannot fake a hang
     since_cpu: u64,
+    /// kernel thread id of the worker that owns the slot (0 = not registered)
+    tid: u64,
+}
+
+/// CPU ticks of one thread of this process
+fn thread_cpu_ticks(tid: u64) -> u64 {
+    let Ok(s) = std::fs::read_to_string(format!("/proc/self/task/{}/stat", tid)) else { return 0 };
+    let Some(i) = s.rfind(')') else { return 0 };
+    let f: Vec<&str> = s[i + 1..].split_whitespace().collect();
+    let g = |k: usize| f.get(k).and_then(|x| x.parse::<u64>().ok()).unwrap_or(0);
+    g(11) + g(12)
 }
 
 /// user + system CPU time of this process in clock ticks (100 per second on Linux)
@@ -155,7 +166,7 @@ impl Watch {
 
     /// `cpu = true`: the limit is CPU time of the process (single-threaded case runners)
     pub fn start_mode(threads: usize, limit: Duration, cpu: bool, on_hang: Box<dyn Fn(Key) + Send>) -> Arc<Watch> {
-        let slots = Arc::new((0..threads).map(|_| Mutex::new(Slot { what: [0; 4], since: None, since_cpu: 0 })).collect::<Vec<_>>());
+        let slots = Arc::new((0..threads).map(|_| Mutex::new(Slot { what: [0; 4], since: None, since_cpu: 0, tid: 0 })).collect::<Vec<_>>());
         let w = Arc::new(Watch { cpu, slots: slots.clone(), hung: Arc::new(AtomicBool::new(false)), calls: AtomicU64::new(0) });
         let hung = w.hung.clone();
         std::thread::spawn(move || {
@@ -163,17 +174,37 @@ impl Watch {
                 std::thread::sleep(Duration::from_millis(100));
                 let mut found = None;
                 let now_cpu = if cpu { proc_cpu_ticks() } else { 0 };
-                for sl in slots.iter() {
+                let mut suspects: Vec<(usize, Key, Instant, u64)> = Vec::new();
+                for (i, sl) in slots.iter().enumerate() {
                     let sl = sl.lock().unwrap();
                     if let Some(t) = sl.since {
-                        let over = if cpu {
+                        if cpu {
                             // 100 ticks per second; wall time must have passed as well
-                            t.elapsed() > limit && now_cpu.saturating_sub(sl.since_cpu) > limit.as_secs() * 100
-                        } else {
-                            t.elapsed() > limit
-                        };
-                        if over {
-                            found = Some(sl.what);
+                            if t.elapsed() > limit && now_cpu.saturating_sub(sl.since_cpu) > limit.as_secs() * 100 {
+                                found = Some(sl.what);
+                            }
+                        } else if t.elapsed() > limit {
+                            suspects.push((i, sl.what, t, sl.tid));
+                        }
+                    }
+                }
+                // wall-clock mode (many worker threads): a call that exceeded the limit is a hang if its
+                // thread is burning CPU, or if it is still in the same call after 12 × the limit; a thread
+                // that was merely descheduled on a loaded machine is left alone
+                for (i, what, t0, tid) in suspects {
+                    if tid == 0 || t0.elapsed() > limit * 12 {
+                        found = Some(what);
+                        break;
+                    }
+                    let c0 = thread_cpu_ticks(tid);
+                    std::thread::sleep(Duration::from_millis(1500));
+                    let c1 = thread_cpu_ticks(tid);
+                    let same = slots[i].lock().unwrap().since == Some(t0);
+                    if same && c1.saturating_sub(c0) >= 100 && t0.elapsed() > limit {
+                        // ≥ 1 s of CPU in the last 1.5 s and the limit long gone: busy, not waiting
+                        if thread_cpu_ticks(tid).saturating_sub(c0) >= 100 {
+                            found = Some(what);
+                            break;
                         }
                     }
                 }
@@ -185,6 +216,15 @@ impl Watch {
             }
         });
         w
+    }
+
+    /// called once by every worker thread: lets the watchdog look at the thread's own CPU time
+    pub fn register(&self, thread: usize) {
+        if let Ok(s) = std::fs::read_to_string("/proc/thread-self/stat") {
+            if let Some(tid) = s.split_whitespace().next().and_then(|x| x.parse::<u64>().ok()) {
+                self.slots[thread].lock().unwrap().tid = tid;
+            }
+        }
     }
 
     pub fn guarded<T>(&self, thread: usize, what: Key, f: impl FnOnce() -> T) -> Guarded<T> {
